@@ -58,6 +58,8 @@ type Unit struct {
 	antecedents []antecedentCheck
 	aliases map[string]string // rename tolerance: contract name -> current local name
 	allLocals map[string]string
+	fatalEvents map[string]bool // bases of zerolog events started with Fatal() (calls.go fatalLog)
+	localRoles map[string]string
 	eng     *Engine
 	c       *Ctx
 	m       *Mem
@@ -618,6 +620,17 @@ func (fr *Frame) cutLoop(li *loopInfo, st *State, pc Term, phiEntry map[*ssa.Phi
 	sort.Strings(hk)
 	for _, k := range hk {
 		nst.ghost[k] = u.c.Fresh("hv_"+k, ghostSorts[k])
+		// the visited set of a map iteration is finite (it grows by one key per iteration)
+		if strings.HasPrefix(k, "iter|") && ghostSorts[k] == ArrSort(SInt, SBool) {
+			if uf, ok := u.eng.specs.UFns["finiteSet"]; ok {
+				u.c.DeclFun(uf.Name, uf.Args, uf.Ret)
+				// like an axiom: only put into queries that count (cardEq/setCard), and it does not make the
+				// finite-set axioms relevant by itself
+				from := u.c.Len()
+				u.c.Assume(app(SBool, "finiteSet", nst.ghost[k]))
+				u.axioms = append(u.axioms, axiomRange{from: from, to: u.c.Len(), syms: []string{"(cardEq ", "(setCard "}})
+			}
+		}
 	}
 	if allocChanged {
 		na := u.c.Fresh("alloc", SInt)
